@@ -610,10 +610,10 @@ func (sr *storeRun) checkCallbacks() {
 // ---- porcupine model ---------------------------------------------------------
 
 type kvIn struct {
-	Kind      string
-	ID        string
-	Val       int
-	MustFail  bool // wrong type or veto
+	Kind     string
+	ID       string
+	Val      int
+	MustFail bool // wrong type or veto
 }
 
 type kvOut struct {
